@@ -4,6 +4,9 @@ import OPM.Lemmas.InterpC02
 import OPM.Lemmas.InterpC02b
 import OPM.Lemmas.InterpC02c
 import OPM.Lemmas.InterpC02d
+import OPM.Lemmas.InterpC02e
+import OPM.Lemmas.InterpC02f
+import OPM.Lemmas.InterpC02g
 set_option linter.unusedSimpArgs false
 /-!
 # C02 Method instructions run once each, in source order
@@ -35,9 +38,19 @@ What is proved, and for which methods:
   the wrapper once the threshold has passed;
 * for ALL methods: the body of a trailing Blank/Comment never returns and never completes the node
   (`trailing_blank_never_returns`);
+* for ALL methods: a trailing Blank/Comment is never completed in any reachable state
+  (`trailing_blank_is_never_completed`);
 * for methods without Alarm and Call macro (any Watches, Blocks, thresholds, commands): over a whole
   run a Mark takes effect at most once (`mark_takes_effect_at_most_once`), because `completed` is
   never cleared (`completed_is_never_cleared`);
+* for sequential methods (no Watch / Alarm / Call macro; Blocks, End block(s), thresholds, Waits, Marks,
+  commands, Base, blank lines, failing instructions): the full statement — every line starts at most once
+  in the whole run (`sequential_line_starts_at_most_once`, `C02_partial`), lines of a scope are entered in
+  source order, each only after the visit of the previous one has returned
+  (`sequential_lines_in_source_order`), and only after the enclosing scope has started
+  (`sequential_line_entered_after_scope_started`), by the structural invariant `SeqInv` (the stack is the path
+  from the root to the running line, `inx = child_index` for every loop frame, an entered line is
+  below `child_index` or is the line the loop is inside of);
 * the full "once per invocation" statement `C02_full` is FALSE for methods that nest a Watch in an
   Alarm: `C02_counterexample` (the re-armed Alarm runs the Watch body inline while the Watch's own
   interrupt runs it too; observed on the real engine, recorded in findings.d/C02.json).
@@ -284,6 +297,75 @@ theorem mark_completed_after_effect (p : Prog) (hnr : noReset p = true) (n : Nat
   | true => rfl
   | false => exact absurd (this hc) h
 
+/-! ## sequential methods: once each, in source order, over the whole run
+
+Methods without Watch, Alarm, Call macro and injected code (any nesting of Blocks with End block / End
+blocks, thresholds, Waits, Marks, commands, Base, blank and comment lines, Macro definitions, failing
+instructions) on a well-formed tree (`sequential p`, decidable). -/
+
+theorem seqState_final (p : Prog) (hseq : sequential p = true) (reqs : List Req) :
+    SeqState p (fun k => cntStart k (trace p reqs)) (final p reqs) :=
+  seqState_run p hseq reqs (init p, []) (seqState_init p)
+
+/-- **Every line of a sequential method starts at most once in a whole run**, under every schedule. -/
+theorem sequential_line_starts_at_most_once (p : Prog) (hseq : sequential p = true) (reqs : List Req) (k : Nat) :
+    cntStart k (trace p reqs) ≤ 1 := by
+  obtain ⟨_, st, _, _, hc⟩ := seqState_final p hseq reqs
+  exact (hc k).1
+
+/-- …and a line that has never been entered has not started. -/
+theorem sequential_unvisited_line_not_started (p : Prog) (hseq : sequential p = true) (reqs : List Req) (k : Nat)
+    (h : ((final p reqs).rt k).hasRecord = false) : cntStart k (trace p reqs) = 0 := by
+  obtain ⟨_, st, _, _, hc⟩ := seqState_final p hseq reqs
+  exact (hc k).2 (Or.inl h)
+
+/-- **Lines of a scope are entered in source order, each only after the visit of the one before it has
+    returned.**  In every state a sequential run can reach: if line number `i` of scope `n` has ever been
+    entered then `i ≤ child_index n` — and `child_index n` is exactly the number of lines of `n` whose visit
+    has returned (`loop_advances_when_child_returns`); so every line `j < i` of that scope has been visited
+    and left before line `i` was entered. -/
+theorem sequential_lines_in_source_order (p : Prog) (hseq : sequential p = true) (reqs : List Req)
+    (n i c : Nat) (hc : (node p n).children[i]? = some c) (hr : ((final p reqs).rt c).hasRecord = true) :
+    i ≤ ((final p reqs).rt n).childIndex := by
+  obtain ⟨_, st, _, hi, _⟩ := seqState_final p hseq reqs
+  rcases hi.J n i c hc hr with h1 | h1
+  · omega
+  · have := (hi.K n i true h1).1 rfl
+    omega
+
+/-- …and while the loop of `n` is inside line `i`, `i` is exactly `child_index n`: the one generator of a
+    sequential run is at one place in every scope. -/
+theorem sequential_loop_position (p : Prog) (hseq : sequential p = true) (reqs : List Req) :
+    ∃ st, (final p reqs).gens = [{ gid := 0, node := 0, stack := st }] ∧ (final p reqs).imap = [] ∧
+      ∀ n inx, Frame.children n inx true ∈ st → inx = ((final p reqs).rt n).childIndex := by
+  obtain ⟨him, st, hg, hi, _⟩ := seqState_final p hseq reqs
+  exact ⟨st, hg, him, fun n inx hm => (hi.K n inx true hm).1 rfl⟩
+
+/-- **A line is entered only after its enclosing scope has started**: in every state a sequential run can
+    reach, if a line of scope `n` has ever been entered then `n` (the method, or the enclosing Block) is
+    started.  (A trailing Blank/Comment is the one node whose `started` flag is cleared again; it has no
+    lines of its own in a parsed method.) -/
+theorem sequential_line_entered_after_scope_started (p : Prog) (hseq : sequential p = true) (reqs : List Req)
+    (n i c : Nat) (hc : (node p n).children[i]? = some c) (hr : ((final p reqs).rt c).hasRecord = true) :
+    ((final p reqs).rt n).started = true ∨ (node p n).kind = .blank true := by
+  obtain ⟨_, st, _, hi, hsc⟩ := seqState2_final p hseq reqs
+  have h : startedOrBlank p (final p reqs) n := by
+    rcases hi.J n i c hc hr with h1 | h1
+    · exact hsc.advanced n (by omega)
+    · exact hsc.frames _ h1 rfl
+  rcases h with h | h
+  · exact Or.inl h
+  · right
+    unfold isTrailingBlank at h
+    split at h
+    · assumption
+    · cases h
+
+theorem cntStart_two (n : Nat) (pre mid post : List Event) :
+    2 ≤ cntStart n (pre ++ .start n :: (mid ++ .start n :: post)) := by
+  simp only [cntStart_append, cntStart_cons, isStartOf, beq_self_eq_true, if_true]
+  omega
+
 /-! ## non-vacuity of the theorems above -/
 
 def tk (k : Nat) (tags : List Int) : Req := .tick ⟨(k : Nat), (k : Nat), (k : Nat), tags⟩
@@ -309,6 +391,26 @@ example : ((final demo (sched 40 [0])).rt 5).hasRecord = true ∧ ((final demo (
     (final demo (sched 40 [0])).gens.map (·.stack) =
       [[.body 5 0, .wrapAfter 5, .children 0 3 true, .body 0 1, .wrapAfter 0], []] := by decide +kernel
 
+/-- `Mark: a` / `Block: B` [ `Mark: b` / `CmdA` / `End block` / `Mark: never` ] / `0.5 Mark: c` / blank -/
+def seqDemo : Prog := #[
+  { kind := .program, parent := none, children := [1, 2, 7, 8], threshold := none, keyPath := [0] },
+  { kind := .mark "a", parent := some 0, children := [], threshold := none, keyPath := [0, 1] },
+  { kind := .block "B", parent := some 0, children := [3, 4, 5, 6], threshold := none, keyPath := [0, 2] },
+  { kind := .mark "b", parent := some 2, children := [], threshold := none, keyPath := [0, 2, 3] },
+  { kind := .cmd "CmdA" false, parent := some 2, children := [], threshold := none, keyPath := [0, 2, 4] },
+  { kind := .endBlock, parent := some 2, children := [], threshold := none, keyPath := [0, 2, 5] },
+  { kind := .mark "never", parent := some 2, children := [], threshold := none, keyPath := [0, 2, 6] },
+  { kind := .mark "c", parent := some 0, children := [], threshold := some (1/2), keyPath := [0, 7] },
+  { kind := .blank true, parent := some 0, children := [], threshold := none, keyPath := [0, 8] }]
+
+/-- the hypothesis of the sequential theorems holds for a method with a Block, a threshold, a command and a
+    trailing blank line; every executed line starts exactly once, the line after `End block` never, and the
+    Marks come in source order -/
+example : sequential seqDemo = true ∧
+    (List.range 9).map (fun k => cntStart k (trace seqDemo (sched 60 []))) = [1, 1, 1, 1, 1, 1, 0, 1, 1] ∧
+    (final seqDemo (sched 60 [])).marks = ["a", "b", "c"] ∧
+    ((final seqDemo (sched 60 [])).rt 0).childIndex = 3 := by decide +kernel
+
 /-! ## the full statement, and where it fails -/
 
 def isInterruptNode (p : Prog) (n : Nat) : Bool :=
@@ -331,6 +433,16 @@ def StartsOncePerInvocation (p : Prog) (tr : List Event) : Prop :=
 
 /-- The full-strength first clause of C02, for all methods and all schedules. -/
 def C02_full : Prop := ∀ (p : Prog) (reqs : List Req), StartsOncePerInvocation p (trace p reqs)
+
+/-- **C02 (first clause) for sequential methods**: the full statement holds for every method without
+    Watch / Alarm / Call macro on a well-formed tree, under every schedule. -/
+theorem C02_partial (p : Prog) (hseq : sequential p = true) (reqs : List Req) :
+    StartsOncePerInvocation p (trace p reqs) := by
+  intro n pre mid post htr _
+  have h1 := sequential_line_starts_at_most_once p hseq reqs n
+  have h2 := cntStart_two n pre mid post
+  rw [← htr] at h2
+  omega
 
 /-- `Alarm: T0 >= 0` [ `Watch: T0 >= 0` [ `Mark: a` ] ] -/
 def wit : Prog := #[
